@@ -332,6 +332,11 @@ impl Oplog {
                    8 + 2 * header_enc(*header).len() as int)
             && is_truncate(r->Ok_0@[1], Store::Oplog, 8192)
             && Oplog::cur_hbit(final(self).header_bits) != Oplog::cur_hbit(old(self).header_bits),
+        // C06: the bits kept in memory are the bits that are now on disk - the slot that was written has its new bit, the other one
+        // is unchanged (an entry appended next carries the current header bit of the FILE, or it would be ignored on reopen)
+        !clear_traces ==> (if Oplog::cur_hbit(old(self).header_bits) { final(self).header_bits[0] == !old(self).header_bits[0] && final(self).header_bits[1] == old(self).header_bits[1] }
+                           else { final(self).header_bits[1] == !old(self).header_bits[1] && final(self).header_bits[0] == old(self).header_bits[0] }),
+        clear_traces ==> final(self).header_bits[0] == !old(self).header_bits[0] && final(self).header_bits[1] == !old(self).header_bits[1],
         // clearing traces: BOTH slots are rewritten, each zero-padded to the full 4096 bytes. C02 (crash between any two of these
         // operations): the first slot write makes the pending entries stale (the current header bit flips), the second one flips
         // it back - so the entries must be truncated away BETWEEN the two, otherwise a crash after the second write would replay
@@ -342,7 +347,7 @@ impl Oplog {
             && is_truncate(r->Ok_0@[1], Store::Oplog, 8192)
             && is_slot_write(r->Ok_0@[2], if Oplog::cur_hbit(old(self).header_bits) { 4096int } else { 0int }, *header,
                    if Oplog::cur_hbit(old(self).header_bits) { !old(self).header_bits[1] } else { !old(self).header_bits[0] }, 4096)
-    sub `combined_infos_to_flush\.extend\(infos_to_flush\.into_vec\(\)\.drain\(0\.\.1\)\)` => `vp_extend(&mut combined_infos_to_flush, vp_take_first(infos_to_flush.into_vec()))`
+    sub `combined_infos_to_flush\.extend\((\w+)\.into_vec\(\)\.drain\(0\.\.1\)\)` => `vp_extend(&mut combined_infos_to_flush, vp_take_first(\1.into_vec()))`
     @*/
 }
 
